@@ -1885,6 +1885,23 @@ where
                             if ann.node == *remote {
                                 continue;
                             }
+                            // Don't send refs announcements of repositories the remote isn't allowed
+                            // to know about. Nb. If we don't have the repository, we can't tell whether
+                            // it's private or not, and the announcement is sent.
+                            if let AnnouncementMessage::Refs(RefsAnnouncement { rid, .. }) =
+                                &ann.message
+                            {
+                                match self.storage.get(*rid) {
+                                    Ok(Some(doc)) if !doc.is_visible_to(&(*remote).into()) => {
+                                        continue
+                                    }
+                                    Ok(_) => {}
+                                    Err(e) => {
+                                        error!(target: "service", "Error reading identity of {rid} from storage: {e}");
+                                        continue;
+                                    }
+                                }
+                            }
                             // Only send messages if we're a relay, or it's our own messages.
                             if relay || ann.node == local {
                                 self.outbox.write(peer, ann.into());
